@@ -769,12 +769,45 @@ def str_method(I, node, s, meth, args, kwargs, st):
         from . import contracts_rt as C
         yield from C.str_replace(I, node, s, a, b, st)
         return
-    if meth in ('upper', 'lower', 'isdigit', 'isalpha', 'isalnum', 'encode', 'decode', 'strip'):
+    if meth in ('isdigit', 'isdecimal', 'isnumeric'):
+        rs = _unicode_ranges(meth)
+        I.trusted.add('str.%s(): exact table of code points taken from this interpreter (unicodedata of python3-vt)' % meth)
+        if s.is_vec():
+            if not s.chars:
+                yield st, SBool(False)
+                return
+            fs = [z3.Or([c == lo if lo == hi else z3.And(c >= lo, c <= hi) for lo, hi in rs]) for c in s.chars]
+            yield st, SBool(z3.simplify(z3.And(fs)))
+        else:
+            us = [z3.Range(chr(lo), chr(hi)) if lo != hi else z3.Re(z3.StringVal(chr(lo))) for lo, hi in rs]
+            yield st, SBool(z3.InRe(s.expr, z3.Plus(z3.Union(*us))))
+        return
+    if meth in ('upper', 'lower', 'isalpha', 'isalnum', 'encode', 'decode', 'strip'):
         raise EngineLimit('str.%s' % meth)
     if meth == '__hash__':
         yield st, SInt(I.fresh('hash', z3.IntSort()))
         return
     raise EngineLimit('str.%s' % meth)
+
+
+_uni_cache = {}
+
+
+def _unicode_ranges(meth):
+    if meth not in _uni_cache:
+        rs = []
+        start = None
+        for cp in range(0x110000):
+            ok = getattr(chr(cp), meth)()
+            if ok and start is None:
+                start = cp
+            elif not ok and start is not None:
+                rs.append((start, cp - 1))
+                start = None
+        if start is not None:
+            rs.append((start, 0x10FFFF))
+        _uni_cache[meth] = rs
+    return _uni_cache[meth]
 
 
 def list_method(I, node, lref, meth, args, kwargs, st):
